@@ -334,6 +334,12 @@ class RegionLifter:
         raise Unsupported("symbolic integer")
 
     def getitem(self, base, ix):
+        try:
+            return self._getitem(base, ix)
+        except IndexError:
+            raise Raised("index out of bounds (no bounds checking in compiled code: a neighbouring value is read)")
+
+    def _getitem(self, base, ix):
         if isinstance(base, Mat):
             if isinstance(ix, tuple):
                 if len(ix) != 2:
@@ -374,6 +380,12 @@ class RegionLifter:
         raise Unsupported(f"subscript of {type(base).__name__}")
 
     def setitem(self, base, ix, v):
+        try:
+            return self._setitem(base, ix, v)
+        except IndexError:
+            raise Raised("store index out of bounds")
+
+    def _setitem(self, base, ix, v):
         if isinstance(base, Mat):
             if isinstance(ix, tuple) and len(ix) == 2:
                 r, c = ix
